@@ -224,6 +224,8 @@ pub fn to_string(value: f64) -> String {
 }
 
 pub fn from_hex(s: &str) -> Option<f64> {
+    // float.fromhex() skips ASCII whitespace around the number
+    let s = s.trim_matches(|c: char| c.is_ascii_whitespace() || c == '\x0b');
     if let Ok(f) = hexf_parse::parse_hexf64(s, false) {
         return Some(f);
     }
